@@ -1,7 +1,7 @@
 #!/bin/bash
 # usage: tools/seedtest.sh <patch.diff> Cnn [Cmm ...]
 # Applies the patch to a scratch worktree of /repo, runs the quick checks of a SNAPSHOT of /verif
-# (so that concurrent edits of /verif do not disturb the run) against it, cleans up.
+# (the committed HEAD, so that concurrent edits of /verif do not disturb the run) against it, cleans up.
 set -u
 patch=$(realpath "$1"); shift
 wt=/var/tmp/seedtest-$$
@@ -9,7 +9,8 @@ snap=/var/tmp/svsnap-$$
 git -C /repo worktree add -q "$wt" HEAD || exit 2
 if ! git -C "$wt" apply "$patch"; then echo "PATCH DOES NOT APPLY"; git -C /repo worktree remove --force "$wt"; exit 2; fi
 mkdir -p "$snap"
-rsync -a --exclude '.git' --exclude '.cache/cargo*' --exclude '.cache/harness*' --exclude '.cache/run' --exclude '.cache/derive-gen' /verif/ "$snap"/
+# the committed state of /verif (not the working tree: edits in progress must not disturb the run)
+git -C /verif archive HEAD | tar -x -C "$snap"
 cd "$snap"
 for pid in "$@"; do
   out=$(VERIF_REPO="$wt" ./sv check "$pid" --tier quick 2>/dev/null); rc=$?
